@@ -118,7 +118,7 @@ def C06(ctx):
                 "encode judged: all samples finite; per channel the cross-correlation with the input over lags -4608..4608 (dense within +-64, step 16 beyond) peaks at "
                 "lag 0 (judged when the peak's normalised correlation is >= 0.6); every output channel correlates best with its own input channel; peak <= 6x input peak (largest observed on this tree: 3.4x, white noise at the lowest quality); for multi-tones SNR >= the committed envelope "
                 "data/c06_envelope.txt[rate band, quality, channel class] (calibrated on this tree: observed minimum - 6 dB, forced monotone in quality) and SNR of the "
-                "same signal does not fall by more than 6 dB when quality rises by two steps; bucket = (signal, channel class, rate band, quality) with every clause held")
+                "same signal does not fall by more than 6 dB when quality rises by two steps; for a noise burst out of digital silence in one channel the output 700-1700 samples before the onset stays 45 dB below the burst (pre-echo confined to the short block); bucket = (signal, channel class, rate band, quality) with every clause held")
     ctx.assumptions = TRUST_COMMON + ["the SNR envelope is an empirical regression bound calibrated on the pinned tree (after the fix: commits), not a psychoacoustic truth",
                                       "channel identity is asserted for q >= 0.1 only (point stereo below that)",
                                       "degradations inside the 6 dB margin, or purely perceptual ones, are invisible to this monitor"]
@@ -193,7 +193,7 @@ def C05(ctx):
                 "alternating +-1); evaluation = one packet or header set: headers accepted by libvorbis AND by the model's strict parser and equal to the encoder's "
                 "vorbis_info (channels, rate, block sizes, three bitrate fields); every audio packet returns 0 from vorbis_synthesis; unmanaged: consumed bits in "
                 "(8*bytes-8, 8*bytes]; managed without hard max: never runs out of bits; the model parses the packet to the same bit position and the same block size; long-block "
-                "window flags equal the neighbours' block sizes; bucket = (rate-control kind, channel class, rate band, signal, coupling off, lowpass set)")
+                "window flags equal the neighbours' block sizes; every third unmanaged encode is repeated through the direct packet interface vorbis_analysis(vb,&op) and must yield byte-identical packets; bucket = (rate-control kind, channel class, rate band, signal, coupling off, lowpass set)")
     ctx.assumptions = TRUST_COMMON + ["thorough tier model-parses one packet in four (all are checked by libvorbis)", "NaN/Inf input samples are outside the statement"]
     ctx.run("san", "specmon", "c05", _n(ctx.tier, 800, 8000), extra_src=SPEC, stack_mb=256)
     return ctx.finish(min_evals=12000, min_buckets=100)
